@@ -61,17 +61,35 @@ fn harness_fatal(what: &str, e: std::io::Error) -> ! {
 /// directory (metadata operations are the expensive part on a journalled file
 /// system); a case never relies on an earlier case having run, so `--replay`
 /// of a single case works.
-fn ensure_file(sdir: &Path, path: &Path, disk: &[u8]) {
-    if let Ok(cur) = std::fs::read(path) {
-        if cur == disk {
-            return;
+fn ensure_file(sdir: &Path, path: &Path, disk: &[u8], link: bool) {
+    let is_link = std::fs::symlink_metadata(path).map(|m| m.file_type().is_symlink()).unwrap_or(false);
+    if is_link == link {
+        if let Ok(cur) = std::fs::read(path) {
+            if cur == disk {
+                return;
+            }
         }
     }
     let attempt = || -> std::io::Result<()> {
         if let Some(parent) = path.parent() {
             std::fs::create_dir_all(parent)?;
         }
-        std::fs::write(path, disk)
+        if std::fs::symlink_metadata(path).is_ok() {
+            std::fs::remove_file(path)?;
+        }
+        if link {
+            // the content lives in a store directory next to the case files;
+            // the looked-up path is a symbolic link to it (a DISTDIR linked
+            // into a shared download cache)
+            let base = if sdir.is_absolute() { sdir.to_path_buf() } else { std::env::current_dir()?.join(sdir) };
+            let store = base.join(".pvh-store");
+            std::fs::create_dir_all(&store)?;
+            let target = store.join(format!("{:016x}", crate::rng::hash_bytes(path.as_os_str().as_bytes())));
+            std::fs::write(&target, disk)?;
+            std::os::unix::fs::symlink(&target, path)
+        } else {
+            std::fs::write(path, disk)
+        }
     };
     if attempt().is_ok() {
         return;
@@ -251,7 +269,12 @@ fn cmp_sum(
 
 fn observe(ev: &mut Ev, dir: &Path, c: &Case12) -> CaseResult {
     let path = dir.join(OsStr::from_bytes(&c.rel));
-    ensure_file(dir, &path, &c.disk);
+    // How the file exists on disk: a regular file, or (one case in four,
+    // decided by the case itself so that a replay does the same) a symbolic
+    // link to a regular file with that content.
+    let link = !cfg!(miri) && crate::rng::hash_strs(&[&c.rel, c.label.as_bytes(), &c.disk[..c.disk.len().min(64)]]) % 4 == 0;
+    ensure_file(dir, &path, &c.disk, link);
+    ev.count(if link { "file-on-disk/symlink-to-regular-file" } else { "file-on-disk/regular-file" });
     let full = path.as_os_str().as_bytes().to_vec();
 
     // ---- oracle ----
@@ -500,7 +523,7 @@ fn scenario(r: &mut Rng, sc: u64) -> Vec<Case12> {
             base
         }
     } else {
-        gd::fresh_name(r, kind, false, true, &mut used)
+        gd::fresh_name_fs(r, kind, &mut used)
     };
     let algs = alg_subset(r);
     let main = record(&name, kind, &content, &algs);
@@ -793,7 +816,11 @@ pub fn run(cx: &mut Cx) {
     for c in gd::CONTENT_CLASSES {
         cx.ev.require(&format!("content/{c}"));
     }
+    if !cfg!(miri) {
+        cx.ev.require("file-on-disk/symlink-to-regular-file");
+    }
     for k in [
+        "file-on-disk/regular-file",
         "built/api",
         "built/parsed",
         "history/plain",
